@@ -7,7 +7,7 @@ use crate::contracts::tokens::TokVotes;
 use crate::examples;
 use crate::report::Report;
 use crate::rng::Rng;
-use crate::world::{invoke, tag, Fail, World};
+use crate::world::{Must, invoke, tag, Fail, World};
 use crate::Cfg;
 use soroban_sdk::{Address, Val, Vec as SVec};
 use std::collections::BTreeMap;
@@ -227,24 +227,24 @@ fn history(cfg: &Cfg, rep: &mut Report, kind: Kind, h: u64, ledgers: usize) {
             // current values: votes, total, units == balance, delegates
             let mv = m.votes();
             for x in 0..n {
-                let v: u128 = invoke(e, &c, "get_votes", args!(e, u[x])).expect("get_votes");
+                let v: u128 = invoke(e, &c, "get_votes", args!(e, u[x])).must("get_votes");
                 rep.check("ref", v == mv[x], &format!("C13/ref/{}/{f}/get_votes", kind.name()), || {
                     format!("after {op:?}: get_votes({x}) = {v}, sum of units of its delegators = {} (units {:?}, delegates {:?})", mv[x], m.units, m.delegate)
                 });
                 let units: u128 = e.as_contract(&c, || stellar_governance::votes::get_voting_units(e, &u[x]));
                 let bal: u128 = if kind == Kind::Nft {
-                    invoke::<u32>(e, &c, "balance", args!(e, u[x])).expect("balance") as u128
+                    invoke::<u32>(e, &c, "balance", args!(e, u[x])).must("balance") as u128
                 } else {
-                    invoke::<i128>(e, &c, "balance", args!(e, u[x])).expect("balance") as u128
+                    invoke::<i128>(e, &c, "balance", args!(e, u[x])).must("balance") as u128
                 };
                 rep.check("ref", units == bal && units == m.units[x], &format!("C13/ref/{}/{f}/units-vs-balance", kind.name()), || {
                     format!("after {op:?}: voting units of {x} = {units}, token balance {bal}, model {}", m.units[x])
                 });
-                let d: Option<Address> = invoke(e, &c, "get_delegate", args!(e, u[x])).expect("get_delegate");
+                let d: Option<Address> = invoke(e, &c, "get_delegate", args!(e, u[x])).must("get_delegate");
                 let di = d.map(|a| u.iter().position(|y| *y == a).unwrap_or(usize::MAX));
                 rep.check("ref", di == m.delegate[x], &format!("C13/ref/{}/{f}/get_delegate", kind.name()), || format!("get_delegate({x}) = {di:?}, model {:?}", m.delegate[x]));
             }
-            let t: u128 = invoke(e, &c, "get_total_supply", args!(e)).expect("get_total_supply");
+            let t: u128 = invoke(e, &c, "get_total_supply", args!(e)).must("get_total_supply");
             rep.check("ref", t == m.total(), &format!("C13/ref/{}/{f}/get_total_supply", kind.name()), || format!("after {op:?}: vote total supply {t}, sum of units {}", m.total()));
             rep.evaluations += (4 * n + 1) as u64;
             // the past as seen from INSIDE a ledger that has already been written to: the ledger just
